@@ -159,3 +159,103 @@ pub fn ledger_verdict() -> Vec<String> {
     }
     f
 }
+
+// ------------------------------------------------------------------------------------------
+// Lock discipline (the `wCheck` step of Lean's `Proto/Bin`): the mutex of a bin lives inside its
+// first node (or its `TreeBin`), so a writer that has locked the node it saw as head must re-read
+// the bin cell and find that very node there before it writes anything. On the event stream: after
+// `BeforeLock(L)` a thread must perform a load that returns the object containing `L` before its
+// next store / swap / successful CAS.
+
+static LOCK_OFFSETS: std::sync::OnceLock<Vec<usize>> = std::sync::OnceLock::new();
+
+/// offsets of the mutex inside a list node and inside a `TreeBin`, measured on a scratch map
+fn lock_offsets() -> &'static Vec<usize> {
+    LOCK_OFFSETS.get_or_init(|| {
+        use crate::types::*;
+        let was_off = LEDGER_OFF.swap(true, std::sync::atomic::Ordering::SeqCst);
+        let th = TableHasher { table: std::sync::Arc::new(vec![0u64; 40]) };
+        let m: flurry::HashMap<K, V, TableHasher> = flurry::HashMap::with_capacity_and_hasher(64, th);
+        let mut offs = vec![];
+        {
+            let g = m.guard();
+            m.insert(K::new(1, 0), V::new(0, 0), &g);
+            let s = m.verif_snapshot(&g);
+            if let Some(t) = &s.table {
+                for b in &t.bins {
+                    if let flurry::verif_inspect::BinSnap::List(ns) = b {
+                        if let Some(n) = ns.first() {
+                            offs.push(n.lock_addr.wrapping_sub(n.addr));
+                        }
+                    }
+                }
+            }
+            for k in 2..=12u32 {
+                m.insert(K::new(k, 0), V::new(0, 0), &g);
+            }
+            let s = m.verif_snapshot(&g);
+            if let Some(t) = &s.table {
+                for b in &t.bins {
+                    if let flurry::verif_inspect::BinSnap::Tree { addr, lock_addr, .. } = b {
+                        offs.push(lock_addr.wrapping_sub(*addr));
+                    }
+                }
+            }
+        }
+        drop(m);
+        LEDGER_OFF.store(was_off, std::sync::atomic::Ordering::SeqCst);
+        offs.sort();
+        offs.dedup();
+        offs
+    })
+}
+
+/// call once before any scheduler is active (the measurement runs map operations)
+pub fn init_lock_offsets() {
+    let _ = lock_offsets();
+}
+
+pub fn lock_discipline(trace: &[TraceEv]) -> Vec<String> {
+    let offs = lock_offsets();
+    let mut f = vec![];
+    let mut seen_sites = std::collections::HashSet::new();
+    // per thread: stack of (mutex address, validated)
+    let mut held: std::collections::HashMap<usize, Vec<(usize, bool)>> = Default::default();
+    for (i, e) in trace.iter().enumerate() {
+        let h = held.entry(e.tid).or_default();
+        match e.kind {
+            Kind::BeforeLock => h.push((e.addr, false)),
+            Kind::Unlock => {
+                if let Some(p) = h.iter().rposition(|x| x.0 == e.addr) {
+                    h.remove(p);
+                }
+            }
+            Kind::Load => {
+                for x in h.iter_mut() {
+                    if !x.1 && offs.iter().any(|o| e.seen != 0 && e.seen.wrapping_add(*o) == x.0) {
+                        x.1 = true;
+                    }
+                }
+            }
+            Kind::Store | Kind::Swap | Kind::Cas | Kind::Retire => {
+                if e.kind == Kind::Cas && !e.ok {
+                    continue;
+                }
+                // raw words (size_ctl, count, lock_state, …) are not protected by bin locks
+                if !e.what.contains("::") {
+                    continue;
+                }
+                if let Some(x) = h.last() {
+                    if !x.1 && seen_sites.insert((e.file, e.line)) {
+                        f.push(format!(
+                            "[discipline] thread {} performs {:?} of {} at {}:{} (event {}) while holding the mutex at {:#x} without having re-read the bin cell and found the locked object there",
+                            e.tid, e.kind, short(e.what), short_file(e.file), e.line, i, x.0
+                        ));
+                    }
+                }
+            }
+            _ => {}
+        }
+    }
+    f
+}
